@@ -368,6 +368,10 @@ func TestC13(t *testing.T) {
 		for _, c := range []string{"peerClose", "eof", "local", "localReason", "localReasonWriteFault"} {
 			sc := base
 			sc.Cause = c
+			if c == "localReasonWriteFault" {
+				// the fault is meant for the close frame itself: no concurrent data write may consume it
+				sc.Busy = false
+			}
 			judge(sc)
 		}
 	})
@@ -378,6 +382,15 @@ func replayC13(t *testing.T, raw json.RawMessage) (string, string) {
 	if err := json.Unmarshal(raw, &sc); err != nil {
 		return "harness", err.Error()
 	}
-	k, m, _ := judgeC13(t, sc)
-	return k, m
+	// with concurrent traffic the interleaving is up to the scheduler: repeat
+	n := 1
+	if sc.Busy {
+		n = 60
+	}
+	for i := 0; i < n; i++ {
+		if k, m, _ := judgeC13(t, sc); k != "" && k != "inconclusive" {
+			return k, m
+		}
+	}
+	return "", ""
 }
